@@ -664,7 +664,7 @@ func nativeReplayDir(prop string, spec *PropSpec, pkgDir, pkgName, workDir strin
 	}
 	var sb strings.Builder
 	fmt.Fprintf(&sb, "package %s\n\nimport (\n\t\"fmt\"\n\t\"os\"\n\t\"path/filepath\"\n\t\"sort\"\n\t\"testing\"\n\n\t\"%s/internal/verifrt\"\n)\n\n", pkgName, modulePath)
-	sb.WriteString("var verifEntries = map[string]func(){\n")
+	sb.WriteString("var verifReplayEntryTable = map[string]func(){\n")
 	seen := map[string]bool{}
 	for _, en := range entries {
 		if !seen[en] {
@@ -683,7 +683,7 @@ func nativeReplayDir(prop string, spec *PropSpec, pkgDir, pkgName, workDir strin
 			fmt.Printf("VERIF-REPLAY file=%s outcome=loaderror:%v\n", filepath.Base(f), err)
 			continue
 		}
-		fn := verifEntries[r.Entry]
+		fn := verifReplayEntryTable[r.Entry]
 		if fn == nil {
 			continue
 		}
